@@ -411,6 +411,11 @@ def check_C12(ctx):
                 prev = st
         if v:
             ctx.violate('lifetime:var-throw', 'variant-throwing-moves: %s; history: %s' % (v, line[:300]), {'case': line, 'output': o})
+    vb = run_objs(pool, ['varbool -'])[0]
+    ctx.count('variant-bool-and-pointers', 'varbool')
+    if vb != 'varbool=ok':
+        ctx.violate('lifetime:varbool', 'a pointer / string literal given to a Variant with a bool alternative selects the wrong alternative '
+                    '(get<T>() is non-null exactly when T is active): ' + vb[:300], {'case': 'varbool', 'output': vb})
     # a Variant whose alternatives 0 and 2 are trivially destructible (float, int) and 1 and 3 track their lifetime:
     # only the tracked ones are counted; the model is compared on which alternative is active
     malpha = var_alphabet([0, 1], [0, 1, 2, 3], [7], [-1, 1, 4], [0]) + ['s0:1:8:1', 's1:3:8:1', 'V1:3:8:1', 'a0:2', 'm0:2', 'm2:0']
@@ -794,10 +799,15 @@ def check_C15(ctx):
     for i in tids:
         t = pool.types[i]
         if t[0] == 'hnd':
-            for wrong in (t[3] + 1, 0 if t[3] else 5, 200):
+            signed = t[2].startswith('i')
+            for wrong in (t[3] + 1, 0 if t[3] else 5, 200, 100):
                 if wrong == t[3]:
                     continue
-                tagb = enc_uint(wrong)
+                # a tag of the policy's own integer type: unsigned classes for unsigned types, a signed class otherwise
+                if signed:
+                    tagb = [wrong] if 0 <= wrong < 128 else [0x86] + list((wrong & 0xffffffff).to_bytes(4, 'little')) if t[2] in ('i32', 'i64') else [0x85] + list((wrong & 0xffff).to_bytes(2, 'little'))
+                else:
+                    tagb = enc_uint(wrong)
                 tag_lines.append((i, 'fdec T%d - 0 b7%s00 -' % (i, ''.join('%02x' % b for b in tagb))))
     if tag_lines:
         to = run_harness(pool, [l for _, l in tag_lines])
